@@ -10,7 +10,7 @@
     ledger of C05.  Lock release on abort is the lock model's (C07/C16), not this sequential one. *)
 From Coq Require Import NArith List String Bool.
 From P9V Require Import Base.Str gen.ConstGen gen.HandlerGen Server.State Server.Msg Server.Handlers
-  Server.Summaries Server.NameProofs Server.SummaryProofs Server.FaultProofs.
+  Server.Summaries Server.NameProofs Server.SummaryProofs Server.FaultProofs Server.TableFrame.
 Import ListNotations.
 Open Scope N_scope.
 
@@ -44,10 +44,18 @@ Proof.
   intros s c m k tape Hk [Hn|[Hn Hu]]; eexists; [eapply unsafe_rejected|eapply unbound_ebadf]; eauto.
 Qed.
 
+(** the fid table changes only at the fids a request may bind or unbind, whatever the backend does
+    (errors and panics at any call index included): every other fid of every connection keeps its fidRef *)
+Theorem C15_other_fids_untouched : forall s c m tape c' f',
+  touches c m (c', f') = false ->
+  tlookup (c', f') (st_fids (fst (fst (fst (step s c m tape))))) = tlookup (c', f') (st_fids s).
+Proof. exact other_fids_untouched. Qed.
+Print Assumptions C15_other_fids_untouched.
+
 (** continued service: whatever happened before (errors, panics), the next request is answered
     from a state satisfying the invariant again -- on any connection *)
 Theorem C15_continued_service : forall h c m tape,
-  names_ok (state_of (step (run init_state h) c m tape)).
+  names_ok (state_of (step (NameProofs.run init_state h) c m tape)).
 Proof. intros. apply step_inv, names_ok_reachable. Qed.
 
 (** ExtractErrno: an errno anywhere in the wrap/join tree wins over os.Err* sentinels; wrapping does not matter *)
